@@ -517,7 +517,7 @@ func (e *Enc) relevantFacts(o *Obl, sliced bool) []*Fact {
 // uninterpreted function symbols also connect facts
 func collectFuns(t *Term, into map[string]*Sort) {
 	if t.Op != "" && !isBuiltinOp(t.Op) && t.Op != "forall" && t.Op != "exists" && t.Op != "constarray" && len(t.Args) > 0 {
-		if strings.HasPrefix(t.Op, "fn$") || strings.HasPrefix(t.Op, "bv$") || strings.HasPrefix(t.Op, "box$") || strings.HasSuffix(t.Op, "_run") {
+		if strings.HasPrefix(t.Op, "fn$") || strings.HasPrefix(t.Op, "bv$") || strings.HasPrefix(t.Op, "box$") || strings.HasPrefix(t.Op, "unbox$") || strings.HasSuffix(t.Op, "_run") {
 			into["fun:"+t.Op] = t.S
 		}
 	}
